@@ -32,6 +32,10 @@ def check(ctx):
     S.check_routing_inlined(ctx, "R-3", SFN)
     check_is_empty(ctx, "R-2")
     check_cbor_bstr(ctx, "R-2")
+    # "... otherwise the encoded map": the header map that a built protected header contributes is what the header encoder
+    # emits - its table is re-checked here (the recogniser of C11 R-1/R-2/R-5/R-6 under this property's name)
+    from rules.c11 import check_map_encoder, HEADER_EMIT, HEADER_EXTRAS
+    check_map_encoder(ctx, "header::Header", HEADER_EMIT, HEADER_EXTRAS, rules=("R-2", "R-2", "R-2", "R-2"))
     S.check_carriers(ctx, "R-5", ["sign::CoseSignature", "sign::CoseSign", "sign::CoseSign1"])
     n = 0
     for key, h in sorted(HELPERS.items()):
